@@ -73,6 +73,19 @@ theorem filled_cache_stays_valid (s : St α) (c : List α) (hc : CacheOK s) (h :
     absT (run s ops) = some c :=
   filled_cache_stays_valid' s c hc h ops
 
+/-- In-place processing (`modify` with a window: the samples selected by a mask remain): the cache invariant survives every
+history of re-referencing, copying, reading **and processing**, so `dtg_time` is `ref + tᵢ` of the samples the series holds
+now (F54: `modify` used to keep the cache of the former time array) … -/
+theorem cache_consistent_processing (ops : List (OpX α)) (s : St α) (h : CacheOK s) :
+    CacheOK (runX s ops) ∧ (dtgTime (runX s ops)).2 = absT (runX s ops) :=
+  cache_consistent_x' ops s h
+
+/-- … and processing changes no absolute instant: after `modify` exactly the instants of the retained samples remain, in
+order; every other operation keeps all of them. -/
+theorem processing_keeps_retained_instants (s : St α) (l : List α) (h : absT s = some l) (op : OpX α) :
+    absT (stepX s op) = some (match op with | .base _ => l | .keep m => keepMask m l) :=
+  absT_stepX s l h op
+
 /-- `dtg_start` / `dtg_end` are the first / last absolute instant. -/
 theorem start_end (s : St α) :
     dtgStart s = (absT s).bind List.head? ∧ dtgEnd s = (absT s).bind List.getLast? :=
